@@ -51,7 +51,8 @@ def ref_dist(nn, es, dirs):
 
 
 def path_case(case):
-    es, dirs = case
+    es, dirs = case[0], case[1]
+    N_NODES = case[2] if len(case) > 2 else 3
     st = ex.new_state()
     G = Graph(st, N_NODES, es, concrete=True)
     G.add_lists(st, dirs)
@@ -104,6 +105,15 @@ def path_case(case):
 
 
 _cases = [(es, dirs) for es in GRAPHS for dirs in itertools.product((True, False), repeat=len(es))]
+# four nodes (after seed c18a: a sibling that re-discovers a queued node needs a diamond with a tail): curated shapes in both sibling
+# orders x every direction flag; thorough adds every directed simple graph with up to four edges
+FOUR = [[(0, 1), (0, 2), (1, 2), (2, 3)], [(0, 2), (0, 1), (1, 2), (2, 3)], [(0, 1), (0, 2), (2, 1), (1, 3)], [(0, 1), (1, 2), (2, 3), (0, 3)], [(0, 1), (1, 2), (2, 3)], [(1, 0), (2, 1), (3, 2)]]
+_cases += [(es, dirs, 4) for es in FOUR for dirs in itertools.product((True, False), repeat=len(es))]
+if T != 'quick':
+    _p4 = [(a, b) for a in range(4) for b in range(4) if a != b]
+    _cases += [(list(es), (True,) * len(es), 4) for k in range(1, 5) for es in itertools.combinations(_p4, k)]
+    _cases += [(list(es), (True,) * 4, 4) for es in itertools.permutations([(0, 1), (0, 2), (1, 2), (2, 3)])]      # every creation order of the diamond with a tail
+ck.bounds['find_path graphs'] += f'; plus {len(_cases) - sum(1 for c in _cases if len(c) == 2)} four-node graphs'
 _nw = 16 if T != 'quick' else 4
 _found = ck.parallel([_cases[i::_nw] for i in range(_nw)], lambda chunk: sum(path_case(c) for c in chunk), jobs=_nw)
 if not sum(f or 0 for f in _found):
